@@ -148,7 +148,17 @@ class C09(PropBase):
                 "(statement by statement, checked operators of both profiles, the slice site &input[k..]) and proved, for every byte list "
                 "and both profiles, panic-free and equal to the number recognisers of the model (c09_numeric_helpers_are_source); what they "
                 "accept is stated declaratively: the longest prefix of at most 8 / 16 / 10 digit bytes, non-empty, positional value, "
-                "decimal values above u32::MAX rejected, a byte >= 0x80 never a digit (c09_numeric_grammar).",
+                "decimal values above u32::MAX rejected, a byte >= 0x80 never a digit (c09_numeric_grammar). "
+                "The line recognisers (which work on run-length encoded lines) are described over the expanded BYTES: my_eol = cr*, a name "
+                "field = bytes up to the first '\\r' + cr*, returned unchanged, valid iff well-formed UTF-8; the run-length shortcut of the "
+                "UTF-8 check is the byte automaton, which accepts exactly the well-formed sequences of Unicode table 3-7 "
+                "(c09_text_fields_on_bytes). Every record kind and sub-line kind - FILE, INLINE_ORIGIN, STACK CFI INIT, STACK CFI, line "
+                "records, PUBLIC, FUNC (optional m), INFO URL, INFO, MODULE, STACK WIN, INLINE (separated_list1) - is proved equal, in both "
+                "directions, to a declarative grammar over bytes (sp+ separators, hex{1,8|16} / digit{1,10} fields, cr* before the "
+                "newline; c09_id_name_record_grammar, c09_cfi_and_line_record_grammar, c09_public_func_record_grammar, "
+                "c09_info_module_record_grammar, c09_win_inline_record_grammar), and the dispatch between kinds (PErr iff the keyword + "
+                "space is absent, cut after it, alt = first non-PErr parser) is c09_record_dispatch. Generator added: STACK WIN records "
+                "with identical / same-start / nested / overlapping / touching ranges (every branch of insert_win_stack_info, tag ok).",
         "note": "Trusted: Coq kernel; hand-written models of mod.rs, parser.rs and of circular 0.3.0 (indices and, since round 5, memory: "
                 "ptr::copy read as memmove, Vec::resize as append of the fill value) - correspondence-checked (events, space() contents, "
                 "callback bytes), pinned by three translators + proofs, not verified against rustc semantics. No axioms.",
